@@ -15,6 +15,7 @@ import (
 	"io"
 	"os"
 	"sync"
+	"sync/atomic"
 	"testing/synctest"
 	"time"
 
@@ -184,7 +185,9 @@ func (n *vNet) NewHost(name, ip string) *vHost {
 // that real deployments do not hit because handlers are registered long before
 // the first connection).
 func (n *vNet) Connect(a, b peer.ID) error {
-	if !n.noWait {
+	if vRealTime.Load() {
+		time.Sleep(10 * time.Millisecond) // stream handlers registered just now must be known to identify
+	} else if !n.noWait {
 		synctest.Wait()
 	}
 	return n.ConnectNoWait(a, b)
@@ -765,7 +768,15 @@ func (p *vPuppet) HasInbound(node peer.ID) bool {
 
 // ---------------------------------------------------------------- helpers
 
+// vRealTime is set by the (few) network monitors that run outside a synctest
+// bubble: settling is then a plain real-time pause.
+var vRealTime atomic.Bool
+
 func vSettle(d time.Duration) {
+	if vRealTime.Load() {
+		time.Sleep(d + 3*time.Millisecond)
+		return
+	}
 	if d > 0 {
 		time.Sleep(d)
 	}
